@@ -130,6 +130,7 @@ func SweepFills() []string {
 	fills = append(fills, " indirect", " indirect;", " indirect; ", " indirect;x", "indirect;", " indirect ;", " indirect;;", " Indirect;", "\tindirect;\t",
 		" Deprecated:", " Deprecated: ", "Deprecated:x", " deprecated: x", "+incompatible", " v1.0.0", " =>", " => ", "=>", " [", "]", ", ",
 		" module", " go", " require", " toolchain", " godebug", " tool", " use", " retract", " exclude", " replace", " ignore", "=", " k=v", " a=b=c")
+	fills = append(fills, enum.BoundaryRunes()...)
 	fills = append(fills, enum.LongFills('a')...)
 	fills = append(fills, strings.Repeat("(", 300), strings.Repeat("a (\n", 200), strings.Repeat("x ", 40000))
 	return fills
